@@ -320,6 +320,14 @@ func runC08(c *Ctx) {
 	}
 	x.bt.Flush()
 
+	// ---- long: accounts above fmt's width limit of 10^6 runes (c08_long.go)
+	for i, w := range c08LongWidths(c) {
+		if c.Want("long", i) {
+			x.one("long", i, c08LongText(i, w), []string{"long"})
+		}
+	}
+	x.bt.Flush()
+
 	// ---- cli: the command on files (in place), one or two files per run
 	nC := c.N(300, 4000)
 	for i := 0; i < nC; i++ {
